@@ -37,6 +37,18 @@ pub fn policy_into_address(
     Ok(address.into())
 }
 
+/// Converts a quantity into the unsigned 64-bit field the ledger uses for it,
+/// failing (instead of wrapping) when it is negative or too large.
+pub fn number_into_u64(value: i128, target: &str) -> Result<u64, Error> {
+    u64::try_from(value).map_err(|_| Error::CoerceError(value.to_string(), target.to_string()))
+}
+
+/// Converts a quantity into a signed 64-bit ledger field, failing when it does
+/// not fit.
+pub fn number_into_i64(value: i128, target: &str) -> Result<i64, Error> {
+    i64::try_from(value).map_err(|_| Error::CoerceError(value.to_string(), target.to_string()))
+}
+
 pub fn expr_into_number(expr: &tir::Expression) -> Result<i128, Error> {
     match expr {
         tir::Expression::Number(x) => Ok(*x),
@@ -53,7 +65,8 @@ pub fn expr_into_metadatum(
 ) -> Result<pallas::ledger::primitives::alonzo::Metadatum, Error> {
     match expr {
         tir::Expression::Number(x) => Ok(pallas::ledger::primitives::alonzo::Metadatum::Int(
-            Int::from(*x as i64),
+            Int::try_from(*x)
+                .map_err(|_| Error::CoerceError(x.to_string(), "Metadatum int".to_string()))?,
         )),
         tir::Expression::String(x) => Ok(pallas::ledger::primitives::alonzo::Metadatum::Text(
             x.clone(),
